@@ -34,6 +34,7 @@ func init() {
 }
 
 type feedModel struct {
+	Ambig map[uint64]bool // batches with a valid answer that lacks the feed's field (value not judged, count is)
 	Name, Creator, Agg string
 	History            uint64
 	CtxID              string
@@ -263,6 +264,13 @@ func (w *oracleWorkload) Next(block int) []rig.Tx {
 					lit, cls = fmt.Sprintf("%d.%02d", 1+rng.Intn(5), rng.Intn(100)), "rate"
 				}
 				body := `{"last":` + lit + `}`
+				if w.reqFeed[id] != "tka-stake" && rng.Intn(12) == 0 {
+					// a valid answer that carries its number under another name: the feed's field is not in it. How such an
+					// answer enters the aggregate is the module's business; that the completed batch appends exactly one value is not
+					out = append(out, r.Mk(p, &orTag{Kind: "respond", Req: id, Feed: w.reqFeed[id], Val: "field-missing", Role: "field-missing"}, svcRespond(p, id, `{"latest":`+lit+`}`)))
+					w.run.Count("answers-without-the-feed's-field", 1)
+					continue
+				}
 				if rng.Intn(5) == 0 {
 					// the number given as a JSON string (the extraction reads it as the number it spells)
 					body, cls = `{"last":"`+lit+`"}`, cls+"/quoted"
@@ -435,6 +443,8 @@ func (w *oracleWorkload) step(site string, br *rig.BlockRecord, prev, cur *oracl
 					run.Eval(3)
 					if got == nil || !reDec8.MatchString(nv.Data) {
 						run.Violation("C17:oracle:value-not-a-decimal-with-8-places:"+f.Agg, detv, "feed %s stored %q for %s of %v", n, nv.Data, f.Agg, f.RespSrc[batch])
+					} else if f.Ambig[batch] {
+						run.Count("batch-with-an-answer-lacking-the-field:one-value-appended", 1)
 					} else if d := new(big.Rat).Abs(new(big.Rat).Sub(got, want)); d.Cmp(tol) > 0 {
 						run.Violation("C17:oracle:value-differs-from-aggregate:"+f.Agg, detv, "feed %s stored %s, exact %s of %v is %s", n, nv.Data, f.Agg, f.RespSrc[batch], want.FloatString(10))
 					}
@@ -571,7 +581,15 @@ func (w *oracleWorkload) Observe(br *rig.BlockRecord) {
 				} else {
 					w.answered[tag.Req] = true
 					b := w.reqBatch[tag.Req]
-					f.Resp[b] = append(f.Resp[b], ratOf(tag.Val))
+					if tag.Val == "field-missing" {
+						if f.Ambig == nil {
+							f.Ambig = map[uint64]bool{}
+						}
+						f.Ambig[b] = true
+						f.Resp[b] = append(f.Resp[b], new(big.Rat))
+					} else {
+						f.Resp[b] = append(f.Resp[b], ratOf(tag.Val))
+					}
 					f.RespSrc[b] = append(f.RespSrc[b], tag.Val)
 				}
 			}
